@@ -19,6 +19,7 @@ type Seg struct {
 	Sub     *Doc   // structured payload (fields are carried over)
 	SubOff  int    // offset of Sub inside Payload
 	Fill    int    // number of 0xFF fill bytes written before the marker (ITU T.81 B.1.1.2)
+	Junk    int    // number of stray non-0xFF bytes written before the marker (and before the fill bytes): scanners resynchronise on the next 0xFF
 
 	Off        int // set by BuildJPEG: offset of the 0xFF of the marker
 	PayloadOff int // offset of the first payload byte
@@ -113,6 +114,9 @@ func BuildJPEG(segs []Seg, withSOI bool) (*Doc, []Seg) {
 	}
 	out := make([]Seg, len(segs))
 	for i, s := range segs {
+		for k := 0; k < s.Junk; k++ {
+			d.Bytes(byte('a' + k%26))
+		}
 		for k := 0; k < s.Fill; k++ {
 			d.Bytes(0xff)
 		}
